@@ -469,6 +469,8 @@ H("streams_retransmit_fin_native", ["C01"], "replay-only", "connection::streams:
   [("mode", "u8")], 4, [], ["StreamsState::retransmit", "StreamsState::write_stream_frames", "SendStream::finish"], "native replay body of E2 query e2_streams_retransmit")
 H("send_write_chunks_native", ["C05"], "replay-only", "connection::streams::send_write_chunks_native",
   [("credit", "u8"), ("chunk", "u8"), ("n", "u8")], 4, [], ["SendStream::write_chunks", "Send::write", "SendBuffer::write"], "native replay body of E2 slice query e2_send_write_loop_iteration")
+H("streams_reset_then_stop_credit_native", ["C06"], "replay-only", "connection::streams::reset_then_stop_credit_native",
+  [("buffered", "u8"), ("extra", "u8")], 4, [], ["StreamsState::received_reset", "RecvStream::stop", "StreamsState::add_read_credits"], "native demonstration for finding 17: credit after RESET_STREAM + stop")
 H("streams_stop_sending_native", ["C11"], "replay-only", "connection::streams::stop_sending_native",
   [("state", "u8")], 4, [], ["StreamsState::received_stop_sending", "Send::try_stop", "SendStream::write"], "native replay body of E2 query e2_received_stop_sending")
 H("streams_reset_acked_native", ["C11"], "replay-only", "connection::streams::reset_acked_native",
